@@ -1,11 +1,12 @@
 import FunModel.Sexp
 import FunModel.Wrap
+import FunModel.WrapConc
 
 /-! Driver for C15.
     `(seq K (stack wspec...) (script step...) (ops callop...))` — sequential call stream
     `(adtonce (new [id]) (script step...) (ops adtop...))`      — adt.Once -/
 namespace FunModel.DrvC15
-open FunModel FunModel.Wrap
+open FunModel FunModel.Wrap FunModel.WrapConc
 
 def atomStr : Atom → String
   | .user n => s!"u{n}"
@@ -122,6 +123,66 @@ def adtCase (args : List Sexp) : Option String := do
   let (rs, w) := go o0 { script := script } ops []
   pure (obsOf rs w)
 
+/-! ### concurrent cases: `(conc subject K (n N) (callers G) (script step...) (choices c...))` -/
+
+def sortStr (xs : List String) : List String := (xs.toArray.qsort (· < ·)).toList
+
+def phaseStr (ps : List (Nat × Nat)) : String := "".intercalate (ps.map (fun p => s!"({p.1},{p.2})"))
+
+def concObs (ps : List (Nat × Nat)) (res : List String) (inv : Nat) : String :=
+  let maxc := ps.foldl (fun m p => max m p.2) 0
+  s!"ph={phaseStr ps}|res={",".intercalate (sortStr res)}|inv={inv}|maxc={maxc}"
+
+def natArg (name : String) (args : List Sexp) (d : Nat) : Nat :=
+  match section? name args with
+  | some [x] => x.nat?.getD d
+  | _ => d
+
+def onceKind (k : String) : Option Kind :=
+  match k with
+  | "M" | "D" | "A" => some .future
+  | "T" => some .operation
+  | _ => kindOf k
+
+def concCase (subject k : String) (args : List Sexp) : Option String := do
+  let script ← (← section? "script" args).mapM stepOf
+  let choices := ((section? "choices" args).getD []).filterMap Sexp.nat?
+  let n := natArg "n" args 1
+  let g := natArg "callers" args 1
+  let fuel := 8192
+  match subject with
+  | "once" =>
+    let kind ← onceKind k
+    let (s, ps) := onceSim.phases fuel (onceInit kind g script) choices []
+    pure (concObs ps (s.rets.map (fun r => resStr r.res)) s.execs)
+  | "limit" =>
+    let kind ← kindOf k
+    let (s, ps) := limSim.phases fuel (limInit kind n g script) choices []
+    pure (concObs ps (s.rets.map (fun r => resStr r.res)) s.execs)
+  | "oplimit" =>
+    let (s, ps) := olSim.phases fuel (olInit n g script) choices []
+    let res := List.replicate (s.retExec + s.retSkip) (resStr .zero) ++ s.panicked.map (fun p => resStr (.panic p))
+    pure (concObs ps res s.execs)
+  | "lock" =>
+    let kind ← kindOf k
+    let (s, ps) := lkSim.phases fuel (lkInit kind g script) choices []
+    pure (concObs ps (s.rets.map resStr) s.execs)
+  | "oplaunch" | "opsignal" =>
+    let (s, ps) := bgSim.phases fuel (bgInit false false g script) choices []
+    pure (concObs ps (s.rets.map (fun r => resStr r.res)) 1)
+  | "wlaunch" | "wsignal" | "wbackground" | "pbackground" | "xbackground" =>
+    let (s, ps) := bgSim.phases fuel (bgInit true false g script) choices []
+    pure (concObs ps (s.rets.map (fun r => resStr r.res)) 1)
+  | "opstartgroup" | "opadd" =>
+    let n := if subject == "opadd" then 1 else n
+    let (s, ps) := sgSim.phases fuel (sgInit n g script) choices []
+    pure (concObs ps (s.rets.map (fun _ => resStr .zero)) n)
+  | "wstartgroup" =>
+    let (s, ps) := sgSim.phases fuel (sgInit n g script) choices []
+    let errStrSorted (es : List Err) : String := "+".intercalate (sortStr (es.flatten.map atomStr))
+    pure (concObs ps (s.rets.map (fun r => s!"0/{errStrSorted r.errs}")) n)
+  | _ => none
+
 def handle (s : Sexp) : String :=
   match s with
   | .list (.atom "seq" :: .atom k :: args) =>
@@ -129,6 +190,7 @@ def handle (s : Sexp) : String :=
     | some k => (seqCase k args).getD "bad-op"
     | none => "bad-op"
   | .list (.atom "adtonce" :: args) => (adtCase args).getD "bad-op"
+  | .list (.atom "conc" :: .atom subject :: .atom k :: args) => (concCase subject k args).getD "bad-op"
   | _ => "bad-op"
 
 end FunModel.DrvC15
